@@ -23,9 +23,26 @@ _CMP = {
 _BIN = {
     ast.Add: lambda a, b: a + b, ast.Sub: lambda a, b: a - b, ast.Mult: lambda a, b: a * b, ast.Mod: lambda a, b: a % b,
     ast.FloorDiv: lambda a, b: a // b, ast.BitAnd: lambda a, b: a & b, ast.BitOr: lambda a, b: a | b, ast.LShift: lambda a, b: a << b,
-    ast.RShift: lambda a, b: a >> b,
+    ast.RShift: lambda a, b: a >> b, ast.BitXor: lambda a, b: a ^ b,
+    ast.Pow: lambda a, b: _pow(a, b),
 }
+
+
+def _pow(a, b):
+    if isinstance(a, int) and isinstance(b, int) and not isinstance(a, bool) and 0 <= b <= 70000 and abs(a) <= 1 << 64:
+        return a ** b
+    raise Unknown('power outside the evaluator\'s range')
 _STR_METHODS = ('startswith', 'endswith', 'find', 'strip', 'lower', 'upper', 'rindex', 'index', 'split', 'rfind', 'lstrip', 'rstrip', 'ljust', 'rjust', 'replace', 'isdigit', 'count', 'rsplit', 'partition', 'rpartition', 'casefold', 'title', 'capitalize', 'zfill', 'isalpha', 'isalnum', 'isspace', 'removeprefix', 'removesuffix')
+
+
+def _has_opaque(v, depth=0):
+    if isinstance(v, Opaque):
+        return True
+    if depth < 4 and isinstance(v, (list, tuple, set)):
+        return any(_has_opaque(x, depth + 1) for x in v)
+    if depth < 4 and isinstance(v, dict):
+        return any(_has_opaque(x, depth + 1) for x in v.values()) or any(_has_opaque(x, depth + 1) for x in v)
+    return False
 
 
 def ev(node, env, hook=None):
@@ -89,7 +106,7 @@ def ev(node, env, hook=None):
         return True
     if isinstance(node, ast.BinOp) and type(node.op) in _BIN:
         lv, rv = ev(node.left, env, hook), ev(node.right, env, hook)
-        if isinstance(lv, Opaque) or isinstance(rv, Opaque):
+        if isinstance(lv, Opaque) or isinstance(rv, Opaque) or (isinstance(node.op, ast.Mod) and isinstance(lv, (str, bytes)) and _has_opaque(rv)):
             raise Unknown('arithmetic on a value that is not computable: %s' % unparse(node))
         return _BIN[type(node.op)](lv, rv)
     if isinstance(node, ast.Subscript):
